@@ -60,7 +60,10 @@ class C15(XsProp):
         for prog in ['10 var X X ^hex ! X X println X', '10 var X X 1 "k" insert-tag ! X X tags', '0.0 var z -0.0 ! z z', '5 var a a ! a a',
                      '[ 1 ] var v v 2 "t" insert-tag ! v v tags v', '1 var q 3 0 do q ^bin ! q loop q print',
                      '1 2 3 rot rot swap drop', ': f 3 0 do I 10 * local x x loop ; f', ': h local x 3 0 do x I + local x loop x ; 10 h',
-                     ': g 2 0 do 2 0 do I J + local y y loop loop ; g', '[ 1 2 ] foreach I loop 3 0 do I loop', ': r local n n 0 > if n 1 - r then n ; 3 r', ': f local a a ^hex local a a ; 9 f print', '3 0 do I 1 == if break then I loop 7']:
+                     ': g 2 0 do 2 0 do I J + local y y loop loop ; g',
+                     '0 8 uint! [ 0xff 0xff ] >bitstr open-bitstr 4 bits close-bitstr bitstr-append bitstr>hex',
+                     '[ 255 255 255 ] >bitstr open-bitstr 9 bits close-bitstr |0| bitstr-append', '[ 1 2 3 ] >bitstr open-bitstr 8 bits drop 8 bits close-bitstr bitstr-not',
+                     '[ 255 ] >bitstr open-bitstr 3 bits close-bitstr dup |x.| bitstr-append swap bitstr-not', '[ 170 85 ] >bitstr open-bitstr 4 bits drop 8 bits close-bitstr 0 3 uint! swap bitstr-append', '[ 1 2 ] foreach I loop 3 0 do I loop', ': r local n n 0 > if n 1 - r then n ; 3 r', ': f local a a ^hex local a a ; 9 f print', '3 0 do I 1 == if break then I loop 7']:
             for (m, rec) in MODES:
                 cs.append(mode_case(hexsrc(prog), m, rec, '3000 - -'))
         # recorded finding D33: a user-defined immediate word runs at build time; `compile` hides the caller's stack from it, `eval` does not
